@@ -512,3 +512,32 @@ Proof.
   destruct (pc_decide_confined_physical _ _ _ _ _ Hroot Hcwd Hacc) as (dir & k & nd & n & H1 & H2 & H3 & H4 & H5 & H6).
   exists d, dir, k, nd, n. repeat split; assumption.
 Qed.
+
+(* ---------------------------------------------------------------- the TEXT on the queue is canonical *)
+(* a canonical text is the rendering of a physical path: every component is a real
+   directory entry, none is a symbolic link, "." or ".." play no role *)
+Lemma pc_text_canonical_physical : forall root cwd s,
+  pc_dir_at root [] -> pc_dir_at root cwd ->
+  pc_text_canonical root cwd s = true ->
+  exists p, s = pc_render p /\ pc_canon root cwd s = inr p /\ pc_physical root p.
+Proof.
+  intros root cwd s Hroot Hcwd H. unfold pc_text_canonical in H.
+  destruct (pc_canon root cwd s) as [e|p] eqn:Hc; [discriminate H|].
+  apply pc_bytes_eqb_eq in H. exists p. split; [symmetry; exact H|]. split; [reflexivity|].
+  eapply pc_canon_physical; eassumption.
+Qed.
+
+(* whatever a request puts on the queue: its text resolves to the checked location
+   and is canonical *)
+Lemma pc_handle_enqueued_text_canonical : forall root cwd api upd rq st enq p,
+  pc_dir_at root [] -> pc_dir_at root cwd -> pc_nonul_names root ->
+  pc_handle root cwd api upd rq = Some (st, enq) -> In p enq ->
+  pc_observe root cwd p = (inr p, true).
+Proof.
+  intros root cwd api upd rq st enq p Hroot Hcwd Hnul H Hin.
+  destruct (pc_handle_enqueued _ _ _ _ _ _ _ _ H Hin) as [_ Hacc].
+  destruct upd as [d|]; [|discriminate Hacc].
+  pose proof (pc_decide_enqueued_canonical _ _ _ _ _ Hroot Hcwd Hnul Hacc) as Hc.
+  unfold pc_observe, pc_text_canonical, pc_entry_text. rewrite Hc. f_equal.
+  apply pc_bytes_eqb_eq. reflexivity.
+Qed.
